@@ -307,3 +307,92 @@ func TestC06Crash(t *testing.T) {
 		}
 	})
 }
+
+// TestC06Mgr: manager level. A channel is driven to a terminal status through the real manager;
+// then the manager is reopened on EVERY prefix of the write log: the listed channels are exactly
+// those created, and a channel found in a cleanup status finishes cleanup when it is restarted
+// through the public API (RestartDataTransferChannel).
+func TestC06Mgr(t *testing.T) {
+	vf.Run(t, "C06Mgr", vf.Opts{Bubble: true, DefaultN: 24}, func(c *vf.Case) {
+		r := c.Rng
+		rl := allRoles[c.Index%4]
+		term := terminals[(c.Index/4)%3]
+		variant := c.Index / 12
+		peers := gen.Peers(r, 2)
+		self, other := peers[0], peers[1]
+		f := newMgrFix(c, self, nil)
+		v := gen.Voucher(r, "VT0")
+		var chid datatransfer.ChannelID
+		if rl.Initiator {
+			var err error
+			chid, err = f.open(rl.Pull, other, v, dummyCid)
+			if err != nil {
+				panic(err)
+			}
+			settle()
+		} else {
+			chid = f.mkResponder(rl.Pull, other, datatransfer.TransferID(1+r.Intn(1000)), v)
+		}
+		// some progress so that the states differ
+		if r.Intn(2) == 0 {
+			f.tp.Events().OnTransferInitiated(chid)
+			f.tp.Events().OnDataReceived(chid, dummyLink, 100, 1, true)
+			f.tp.Events().OnDataQueued(chid, dummyLink, 100, 1, true)
+			settle()
+		}
+		mgrToTerminal(f, chid, rl, term, variant)
+		if vv := f.view(chid); vv == nil || vv.Status != term {
+			c.Violation("C06", "route-did-not-terminate", "manager route to %s for %s ended in %v", term, rl, vv)
+			f.stop()
+			return
+		}
+		f.stop()
+		log := f.ds.Log()
+		key := keyFor(log, chid)
+		created := -1
+		for j, w := range log {
+			if w.Key == key {
+				created = j
+				break
+			}
+		}
+		restarted := 0
+		for k := 1; k <= len(log); k++ {
+			f2 := newMgrFix(c, self, doubles.NewRecDSFrom(log[:k]))
+			all, err := f2.m.InProgressChannels(bg)
+			if err != nil {
+				c.Violation("C06", "reopen-list-error", "crash point %d: InProgressChannels: %v", k, err)
+				f2.stop()
+				continue
+			}
+			c.Count("crash_points", 1)
+			_, present := all[chid]
+			if present != (created >= 0 && created < k) {
+				c.Violation("C06", "channel-presence", "crash point %d: channel present=%v, created at write %d", k, present, created)
+			}
+			if present {
+				vv := f2.view(chid)
+				if vv != nil && isCleanup(vv.Status) {
+					want := vv.Status + 1
+					err := f2.m.RestartDataTransferChannel(bg, chid)
+					settle()
+					after := f2.view(chid)
+					restarted++
+					if err != nil || after == nil || after.Status != want {
+						c.Violation("C06", fmt.Sprintf("cleanup-not-finished-on-restart %s", vv.Status), "crash point %d: %s channel persisted in %s: RestartDataTransferChannel err=%v, now %v, want %s", k, rl, vv.Status, err, after, want)
+					}
+					if n := doubles.CountOp(f2.tp.Calls(), "cleanup", chid); n != 1 && err == nil {
+						c.Violation("C06", fmt.Sprintf("cleanup-count-on-restart %d", n), "channel persisted in %s: transport cleanup ran %d times on restart", vv.Status, n)
+					}
+				}
+			}
+			f2.stop()
+		}
+		c.Count("cleanup_resumed", restarted)
+		c.Mark("role=%s term=%s variant=%d restarted=%d", rl, term, variant%2, restarted)
+		c.NonTrivial()
+		if c.Index < 1 {
+			c.Sample(map[string]any{"level": "manager", "role": rl.String(), "terminal": term.String(), "write_log_len": len(log), "restarted_from_cleanup": restarted})
+		}
+	})
+}
